@@ -18,7 +18,8 @@ for d in sorted(glob.glob("/verif/seeded/C??-*")):
     hist = h if isinstance(h, str) else "; ".join(h)
     prop = m.get("breaks_property") or m.get("property") or os.path.basename(d)[:3]
     rc = own.get("exit")
-    if rc is None:
+    if rc is None or (own.get("check") and own.get("check") != prop):
+        # (the change was relabelled: the verdict of the check that owns the property it really breaks decides)
         # no separate re-run of the own check was filed: the full evaluation decides
         rc = 1 if prop in m.get("caught_by", []) else 0
     if m.get("valid_against"):
